@@ -44,3 +44,42 @@ theorem sstep_restore_then_list {V} (s : SSt V) (h : SLive s) (valid : List Tag)
   simp [sstep, h1, h2, List.filter_append, hp]
 
 end SFV.Gather
+
+namespace SFV.Gather
+open SFV
+
+/-- **provenance of a gathered list (data events).** Whenever a token arrival makes the step emit, the list token's recorded
+    inputs are the size token RECEIVED for its key (so the size is known) and exactly the element tokens the list is the
+    sorted arrangement of. -/
+theorem provOfStep_data {V} (d : Nat) (s : St V) (e : Ev V) (ho : BothOpen s) (hd : IsData e) :
+    ∀ p ∈ provOfStep d s e, p.sizeReceived = true ∧ (p.key, sortToks p.elems) ∈ (step d s e).out ∧
+      (step d s e).sizes p.key ≠ none := by
+  obtain ⟨ho1, ho2⟩ := ho
+  cases e with
+  | term q st => exact (hd : False).elim
+  | elem t =>
+    intro p hp
+    simp only [provOfStep, step, ho2, Bool.not_true, Bool.false_eq_true, if_false] at hp ⊢
+    split at hp
+    · rename_i hem
+      simp only [hem, if_true]
+      simp only [emit, List.drop_left, List.map_cons, List.map_nil, List.mem_singleton] at hp
+      subst hp
+      refine ⟨rfl, by simp [emit], ?_⟩
+      simp only [emit]
+      intro hnone
+      have := (elemEmits_iff _ _).mp hem
+      rw [hnone] at this; cases this
+    · simp at hp
+  | size k n =>
+    intro p hp
+    simp only [provOfStep, step, ho1, Bool.not_true, Bool.false_eq_true, if_false] at hp ⊢
+    split at hp
+    · rename_i hem
+      simp only [hem, if_true]
+      simp only [emit, List.drop_left, List.map_cons, List.map_nil, List.mem_singleton] at hp
+      subst hp
+      exact ⟨rfl, by simp [emit], by simp [emit, setKey]⟩
+    · simp at hp
+
+end SFV.Gather
